@@ -1,4 +1,147 @@
+(* C13 - Coroutines: each suspension resumed exactly once, on its executor, right result.
+
+   Model: CO/COModel.v - interleaving machine of coroutine::Futex (futex.h / futex.cpp: await_suspend, add_awaiter,
+   wake_one, wake_all, Awaitable::cancel, remove_awaiter) over an abstract DepositBox (emplace -> versioned id, take
+   succeeds once per id, finish returns the slot; its allocator is property C14), with BasicPromise::resume handing
+   the continuation to the executor the coroutine is bound to, and the take race of BasicCancellable.  Client programs
+   (wake_one / wake_all / cancel / value store, any number of threads) and coroutine programs (any number of waits
+   each, any executor) are universally quantified; schedules are arbitrary lists of thread ids ([Reach] = reachable
+   from [init] by the machine of Conc/Machine.v).  The loop advances of wake_one / wake_all, the branches of
+   await_suspend, add_awaiter and remove_awaiter are regenerated from the source (Gen_coroutine.v, [gen_cfg]);
+   [c13_code_paths] ties them to the configuration the invariant is proved for, so an edit of those expressions
+   re-opens the proofs.
+
+   What is proved (all by one ownership invariant, COProofs.Inv, preserved by every step):
+     c13_resume_once        no resumption ever hits a coroutine that is not suspended (bad = 0) and no suspension
+                            (coroutine, wait index) is resumed twice
+     c13_resumer_owns       the thread about to resume node n is its only owner and the coroutine stored in n is
+                            suspended on exactly n (cancel vs wake_one vs wake_all: exactly one wins the node)
+     c13_on_executor        every continuation is handed to the executor its coroutine is bound to
+     c13_quiescent          when nothing is in flight every deposit slot is free or is the node of a queued, untaken
+                            waiter whose coroutine is suspended on it (no leaked bookkeeping, slots held = waits in
+                            progress), and every suspended coroutine has such a node in the list (never stranded: the
+                            next wake_one / wake_all reaches it)
+     c13_wake_one_zero      a wake_one call that returns 0 leaves an empty list at that moment, and
+     c13_failed_take        a node a waker could not take is owned by a canceller that has not unlinked it yet
+                            (so wake_one returns 0 only if every queued waiter was being cancelled)
+     c13_wake_all           wake_all detaches the whole list; every detached node is untaken-and-queued or being
+                            cancelled, every node it took has its coroutine suspended on it (and is resumed once, by it)
+     c13_nonmatching        a wait whose value does not match does not suspend, publishes no token, returns its slot
+     c13_cancel_iff_empty   BasicCancellable: whatever the calls of cancel / resume on one id, the awaiter is resumed
+                            exactly once, by the first, and its optional is empty iff that first call was a cancel
+   Partial / not mechanised: liveness is in safety form (c13_quiescent: no reachable quiescent state strands or leaks
+   a wait); "eventually resumed under a fair scheduler" is the standard step from there and is not proved.  The
+   return value of wake_all (= number of nodes it took) is checked by the acct monitor on the real code, not proved.
+   Task / FutureAwaitable / final_suspend hand-off are covered by monitors on the real code only (value, executor,
+   once).  Observed by reading, not reproduced (needs a pre-emption inside a plain-memory window plus ASan):
+   Futex::Awaitable::await_suspend reads this->_on_suspend after add_awaiter published the node; a waker on another
+   thread may already have resumed the coroutine and destroyed the awaitable.
+   Regression witnesses (code before the repairs 3220185 / 0534791 / 78434ce, cfg_asis): c13_asis_*. *)
 From Coq Require Import ZArith List Bool Arith.
-Require Import Verif.Conc.Machine Verif.CO.COModel Verif.CO.COProofs.
-Theorem c13_placeholder : True. Proof. exact placeholder. Qed.
-Print Assumptions c13_placeholder.
+Require Import Verif.Conc.Machine Verif.Gen.Gen_coroutine Verif.CO.COModel Verif.CO.COProofs.
+Import ListNotations.
+Local Open Scope Z_scope.
+
+Theorem c13_code_paths : gen_cfg = cfg_fixed.
+Proof. exact gen_cfg_fixed. Qed.
+Print Assumptions c13_code_paths.
+
+Theorem c13_resume_once : forall v0 cps kps s, Reach v0 cps kps s -> bad s = 0%nat /\ NoDup (map fst (rlog s)).
+Proof. exact t_resume_once. Qed.
+Print Assumptions c13_resume_once.
+
+Theorem c13_resumer_owns : forall v0 cps kps s t n, Reach v0 cps kps s -> In n (held_pc (cst s t)) ->
+  kstat s (nco (slot_at s n)) = KSusp (nwi (slot_at s n)) n /\ (forall t', In n (owned_pc (cst s t')) -> t' = t).
+Proof. exact t_resumer_owns. Qed.
+Print Assumptions c13_resumer_owns.
+
+Theorem c13_on_executor : forall v0 cps kps s i j e, Reach v0 cps kps s -> In (i, j, e) (rlog s) -> e = kex s i.
+Proof. exact t_on_executor. Qed.
+Print Assumptions c13_on_executor.
+
+Theorem c13_quiescent : forall v0 cps kps s, Reach v0 cps kps s -> quiescent s = true ->
+  (forall n, (n < nslots s)%nat ->
+     In n (freel s) \/
+     (In n (lst s) /\ take_ok s n (nidv (slot_at s n)) = true /\
+      kstat s (nco (slot_at s n)) = KSusp (nwi (slot_at s n)) n)) /\
+  (forall i j n, kstat s i = KSusp j n ->
+     In n (lst s) /\ take_ok s n (nidv (slot_at s n)) = true /\ nco (slot_at s n) = i /\ nwi (slot_at s n) = j).
+Proof. exact t_quiescent. Qed.
+Print Assumptions c13_quiescent.
+
+Theorem c13_wake_one_zero : forall s t cl s' cl',
+  nth_error (clients s) t = Some cl -> step_client gen_cfg s t cl = Some s' ->
+  ((cpcv cl = CIdle /\ nth_error (cprog cl) (copi cl) = Some OWake1) \/ exists n, cpcv cl = W1Take n) ->
+  nth_error (clients s') t = Some cl' -> cres cl' = cres cl ++ [RW1 0] -> lst s' = [].
+Proof. exact t_wake_one_zero. Qed.
+Print Assumptions c13_wake_one_zero.
+
+Theorem c13_failed_take : forall v0 cps kps s t n, Reach v0 cps kps s ->
+  (cst s t = W1Take n \/ exists r taken, cst s t = WATake (n :: r) taken) ->
+  take_ok s n (nidv (slot_at s n)) = false -> exists t', cst s t' = CKLock n.
+Proof. exact t_failed_take. Qed.
+Print Assumptions c13_failed_take.
+
+Theorem c13_wake_all : forall v0 cps kps,
+  (forall s t cl s', step_client gen_cfg s t cl = Some s' -> cpcv cl = CIdle ->
+     nth_error (cprog cl) (copi cl) = Some OWakeAll -> lst s' = []) /\
+  (forall s t pend taken n, Reach v0 cps kps s -> cst s t = WATake pend taken ->
+     (In n pend -> (n < nslots s)%nat /\
+        ((sst (slot_at s n) = SQueued /\ take_ok s n (nidv (slot_at s n)) = true) \/ exists t', cst s t' = CKLock n)) /\
+     (In n taken -> kstat s (nco (slot_at s n)) = KSusp (nwi (slot_at s n)) n)).
+Proof. exact t_wake_all. Qed.
+Print Assumptions c13_wake_all.
+
+Theorem c13_nonmatching : forall s i k j n x tok s',
+  kstv k = KLock j n -> nth_error (kprog k) j = Some (x, tok) -> x <> fv s -> (n < nslots s)%nat ->
+  step_coro gen_cfg s i k = Some s' ->
+  s' = set_coro (release (take s n SFree) n) i (set_kst k (KReady (S j))) /\ In n (freel s') /\
+  lst s' = lst s /\ tokens s' = tokens s.
+Proof. exact t_nonmatching. Qed.
+Print Assumptions c13_nonmatching.
+
+Theorem c13_cancel_iff_empty : forall idv w calls,
+  cresumed (crun idv (w :: calls)) = 1%nat /\ cwins (crun idv (w :: calls)) = [w] /\
+  (cresult_empty (crun idv (w :: calls)) = true <-> w = CCancel).
+Proof. exact cancellable_race. Qed.
+Print Assumptions c13_cancel_iff_empty.
+
+(* regression witnesses: the three pre-fix behaviours, on the model of the code as it was (cfg_asis) *)
+Theorem c13_asis_leak_refuted : exists sch,
+  let s := run st (step cfg_asis) (init 1 [] [(0%nat, [(0, false)])]) sch in
+  quiescent s = true /\ map kstv (coros s) = [KDone] /\ in_use s = 1%nat /\ lst s = [].
+Proof. exact asis_leak. Qed.
+Print Assumptions c13_asis_leak_refuted.
+
+Theorem c13_asis_wake_one_refuted : exists sch,
+  let s := run st (step cfg_asis) (init 1 [[OCancel 1 0]; [OWake1]] [(0%nat, [(1, true)]); (0%nat, [(1, true)])]) sch in
+  map cres (clients s) = [[]; [RW1 0]] /\ lst s = [0%nat] /\ take_ok s 0 (nidv (slot_at s 0)) = true.
+Proof. exact asis_wake_one. Qed.
+Print Assumptions c13_asis_wake_one_refuted.
+
+Theorem c13_asis_wake_all_refuted : exists sch,
+  let s := run st (step cfg_asis) (init 1 [[OWakeAll]] [(0%nat, [(1, false)]); (0%nat, [(1, false); (1, false)])]) sch in
+  quiescent s = true /\ map cres (clients s) = [[RWA 1]] /\ map kstv (coros s) = [KSusp 0 0; KSusp 1 1] /\ lst s = [1%nat].
+Proof. exact asis_wake_all. Qed.
+Print Assumptions c13_asis_wake_all_refuted.
+
+(* non-vacuity: reachable states of the repaired code that satisfy the hypotheses above *)
+Example c13_ex_quiescent_waiter :
+  let s := run st (step gen_cfg) (init 1 [] [(0%nat, [(1, true)])]) [0; 0]%nat in
+  quiescent s = true /\ lst s = [0%nat] /\ kstat s 0 = KSusp 0 0 /\ length (tokens s) = 1%nat.
+Proof. vm_compute. auto. Qed.
+Example c13_ex_cancel_beats_wake_one :   (* same programs and schedule as c13_asis_wake_one_refuted *)
+  let s := run st (step gen_cfg) (init 1 [[OCancel 1 0]; [OWake1]] [(0%nat, [(1, true)]); (0%nat, [(1, true)])])
+               [2; 2; 3; 3; 0; 1; 1; 1; 1; 1; 0; 0; 0; 2; 2; 3; 3]%nat in
+  quiescent s = true /\ map cres (clients s) = [[RK (Some true)]; [RW1 1]] /\ map kstv (coros s) = [KDone; KDone] /\
+  in_use s = 0%nat /\ map fst (rlog s) = [(0, 0); (1, 0)]%nat.
+Proof. vm_compute. auto. Qed.
+Example c13_ex_wake_all_rewait :          (* same programs as c13_asis_wake_all_refuted *)
+  let s := run st (step gen_cfg) (init 1 [[OWakeAll]] [(0%nat, [(1, false)]); (0%nat, [(1, false); (1, false)])])
+               [1; 1; 2; 2; 0; 0; 0; 0; 0; 2; 2; 2; 0; 0; 0; 0; 1; 1]%nat in
+  quiescent s = true /\ map cres (clients s) = [[RWA 2]] /\ map kstv (coros s) = [KDone; KSusp 1 1] /\ in_use s = 1%nat.
+Proof. vm_compute. auto. Qed.
+Example c13_ex_mismatch_no_leak :
+  let s := run st (step gen_cfg) (init 1 [] [(0%nat, [(0, false)])]) [0; 0; 0]%nat in
+  map kstv (coros s) = [KDone] /\ in_use s = 0%nat.
+Proof. vm_compute. auto. Qed.
